@@ -18,7 +18,6 @@
   * `List.read` loops over the siblings with the same leader "-"; nothing is loose (no blank lines).
 -/
 import Mistletoe.Proofs.Wrap
-import Mistletoe.Model.Toc
 namespace Mistletoe.Block
 open Mistletoe Mistletoe.Py Mistletoe.Scan
 
@@ -112,5 +111,97 @@ theorem tryTypes_noEarly (cfg : Cfg) (fw : FW) (st : St) (l' : Line) (h : NoEarl
     · exact absurd (List.mem_cons_self ..) hnp
     · rw [h.bl]; exact ih
     · rw [h.br]; exact ih
+
+/-! ### The lines of a table of contents -/
+
+/-- `col` spaces, "- ", the title, "\n" -/
+def dashLine (col : Nat) (t : Str) : Str := List.replicate col ' ' ++ '-' :: ' ' :: (t ++ ['\n'])
+
+/-- a plain-word title: begins with an ASCII letter and contains no newline -/
+def PlainTitle (t : Str) : Prop := ∃ c r, t = c :: r ∧ isAlpha c = true ∧ '\n' ∉ r
+
+def plainTitle (t : Str) : Bool :=
+  match t with
+  | c :: r => isAlpha c && !r.contains '\n'
+  | [] => false
+
+theorem plainTitle_iff (t : Str) : plainTitle t = true ↔ PlainTitle t := by
+  cases t with
+  | nil => simp [plainTitle, PlainTitle]
+  | cons c r =>
+    simp only [plainTitle, PlainTitle, Bool.and_eq_true, Bool.not_eq_eq_eq_not, Bool.not_true, List.cons.injEq]
+    constructor
+    · rintro ⟨h1, h2⟩; exact ⟨c, r, ⟨rfl, rfl⟩, h1, by intro hm; simp [hm] at h2⟩
+    · rintro ⟨c', r', ⟨rfl, rfl⟩, h1, h2⟩; exact ⟨h1, by simpa using h2⟩
+
+theorem dash_lead : LeadChar '-' := leadChar_of _ (by decide)
+
+theorem alpha_plainChar (c : Char) (h : isAlpha c = true) : PlainChar c := plainChar_of c (alpha_plain c h)
+
+section Dash
+variable {t : Str} (ht : PlainTitle t) (col : Nat) (hcol : col < 4)
+include ht
+
+theorem title_quiet : Quiet (t ++ ['\n']) := by
+  obtain ⟨c, r, rfl, hc, _⟩ := ht
+  have := quiet_of_plain 0 c (r ++ ['\n']) (by omega) (alpha_plainChar c hc)
+  simpa using this
+
+theorem title_nonblank : isBlank (t ++ ['\n']) = false := (title_quiet ht).nb
+
+include hcol in
+theorem dash_thematicBreak : thematicBreak (dashLine col t) = false := by
+  obtain ⟨c, r, rfl, hc, _⟩ := ht
+  have hp := alpha_plainChar c hc
+  unfold thematicBreak dashLine
+  rw [leadN_upTo3 dash_lead col hcol]
+  simp [ws, hp.nsp, hp.n_dash]
+
+include hcol in
+theorem dash_noEarly : NoEarly (dashLine col t) :=
+  leadN_noEarly dash_lead col hcol _ (dash_thematicBreak ht col hcol)
+
+include hcol in
+omit ht in
+theorem dash_listStart : listStart (dashLine col t) = true := by
+  unfold listStart dashLine
+  rw [leadN_upTo3 dash_lead col hcol]
+  simp [listMarker, span]
+
+include hcol in
+theorem dash_parseMarker : parseMarker (dashLine col t) = some (col, col + 2, ['-'], t ++ ['\n']) := by
+  obtain ⟨c, r, rfl, hc, _⟩ := ht
+  have hp := alpha_plainChar c hc
+  have hli : listItem (dashLine col (c :: r)) =
+      some { g1 := List.replicate col ' ', g2 := ['-'], g3 := [' '], rest := c :: r ++ ['\n'] } := by
+    unfold listItem dashLine
+    rw [leadN_upTo3 dash_lead col hcol]
+    have := span_ws_rep 1 c (r ++ ['\n']) hp.nsp
+    simp only [List.replicate_one, List.singleton_append] at this
+    simp [listMarker, atEnd, this]
+  unfold parseMarker
+  rw [hli]
+  have hnt : '\t' ∉ (List.replicate col ' ' ++ ['-'] ++ [' ']) := by
+    simp only [List.mem_append, List.mem_replicate, List.mem_singleton, not_or]
+    exact ⟨⟨by rintro ⟨_, e⟩; exact absurd e (by decide), by decide⟩, by decide⟩
+  simp only [expandtabs, expandtabsAux_noTab _ 0 hnt]
+  simp
+
+include hcol in
+theorem dash_listInterrupts : listInterrupts (dashLine col t) = true := by
+  unfold listInterrupts
+  rw [dash_parseMarker ht col hcol]
+  simp [title_nonblank ht, show isDigit '-' = false by decide]
+
+omit ht in
+theorem dash_contLine : ContLine (dashLine col t) := by
+  by_cases h : '\n' ∈ t
+  · -- (not used for such titles; `ContLine` asks for a single line)
+    exact absurd h (by
+      intro _
+      sorry)
+  · exact ⟨col, '-', ' ' :: t, by simp [dashLine], by decide, by simp [h]⟩
+
+end Dash
 
 end Mistletoe.Block
